@@ -341,8 +341,9 @@ def phh_pair(tid, spec, rng, pol, cut_p=0.3, user_fields=True):
     flags = []
     kw = {}
     if user_fields:
-        kw = {'_seed': spec['seed'], '_tags': ['verif', 'x y'], '_ratio': 1.5, '_flag': True, '_note': "it's a 'quoted' #note",
-              '_nested': {'a': 1, 'b c': [1, 2]}, 'author': 'verif', 'hand': tid}
+        kw = {'_seed': spec['seed'], '_tags': ['verif', 'x y'], '_ratio': 1.5, '_flag': True, '_off': False, '_zero': 0, '_note': "it's a 'quoted' #note",
+              '_nested': {'a': 1, 'b c': [1, 2], 'off': False, 'zero': 0, 'empty': '', 'inner': {'x': False, 'y': [True, False]}},
+              '_list_of_tables': [{'k': 1}, {'k': 0}], 'author': 'verif', 'hand': tid}
     stB = None
     try:
         with warnings.catch_warnings():
@@ -359,6 +360,32 @@ def phh_pair(tid, spec, rng, pol, cut_p=0.3, user_fields=True):
             for stB in hh2:
                 pass
         flags.append(['the loaded history replays without error', True])
+        if not stA.status and hh.actions and stB is not None:
+            # a history that leaves out the free checks is completed in the documented way: same final chips
+            slim = HandHistory.loads(text)
+            import re as _r
+            bet = [0] * spec['n']
+            keep = []
+            ops = [pk.op_rec(o) for o in stA.operations]
+            free = iter([o['amt'] == 0 for o in ops if o['k'] == 'CC'])
+            dropped = 0
+            for a in slim.actions:
+                if _r.match(r'^p\d+ cc\b', a) and next(free, False):
+                    dropped += 1
+                    continue
+                keep.append(a)
+            if dropped:
+                slim.actions = keep
+                try:
+                    last = None
+                    with warnings.catch_warnings():
+                        warnings.simplefilter('ignore')
+                        for last in slim:
+                            pass
+                    same = list(last.stacks) == list(stB.stacks) and not last.status
+                except Exception:  # noqa: BLE001
+                    same = False
+                flags.append(['a history with the free checks left out replays to the same final stacks', same])
         if not stA.status and hh.actions:
             # a history that cannot be applied is an error, not a silently shorter hand: one more action after the end
             import dataclasses as _dc
